@@ -26,7 +26,7 @@ ASSUMPTIONS = [
     "with in_place=True only the returned value, dtype and shape are checked",
 ]
 
-DTYPES = {"f64": np.float64, "f32": np.float32, "i32": np.int32, "i16": np.int16}
+DTYPES = {"f64": np.float64, "f32": np.float32, "i32": np.int32, "i16": np.int16, "ld": np.longdouble, "f16": np.float16, "u16": np.uint16}
 EPS = float(np.finfo(np.float64).eps)
 
 
@@ -41,7 +41,7 @@ def make_dataset(spec, n=None, seed=None):
     if len(scales) != F or N < 1 or F < 1:
         raise Discard()
     dt = np.dtype(DTYPES[spec["dtype"]])
-    if dt.kind == "i":
+    if dt.kind in "iu":
         scales = [max(2.0, s) for s in scales]
     rng = np.random.Generator(np.random.PCG64(int(spec["seed"] if seed is None else seed)))
     z = rng.standard_normal((N, F))
@@ -58,11 +58,14 @@ def make_dataset(spec, n=None, seed=None):
     for f in range(F):
         if scales[f] == 0.0:
             # a coefficient that is the same in every vector, at a value without an exact binary representation
-            data[:, f] = 0.7 + 0.1 * float(spec["m"][f])
+            base = (0.7, 0.3, -2.3, 1.1, 0.1, 1.0 / 3.0, 2.675, -0.7)[(int(spec["seed"] if seed is None else seed) + f) % 8]
+            data[:, f] = base * (1.0 + abs(int(float(spec["m"][f]))) % 3)
             continue
         data[:, f] = float(spec["m"][f]) * scales[f] + scales[f] * z[:, f]
-    if dt.kind == "i":
+    if dt.kind in "iu":
         data = np.rint(data)
+    if dt.kind == "u":
+        data = data - min(0.0, float(data.min()))  # unsigned features: shifted to be non-negative
     return np.ascontiguousarray(data.astype(dt))
 
 
@@ -205,7 +208,7 @@ def _pres():
 
 
 @st.composite
-def dataset_specs(draw, min_n=2, dtypes=("f64", "f64", "f32", "i16", "i32"), allow_const=False):
+def dataset_specs(draw, min_n=2, dtypes=("f64", "f64", "f32", "i16", "i32", "f64", "f32", "i16", "i32", "ld", "f16", "u16"), allow_const=False):
     F = draw(st.sampled_from([1, 2, 2, 3, 3, 4, 5, 6]))
     # location in units of the spread: mostly moderate, sometimes an offset hundreds of times the spread
     # (|mean|/std up to 1e3 keeps the float64 cancellation in E[x^2]-mean^2 far below the tolerance)
@@ -216,7 +219,7 @@ def dataset_specs(draw, min_n=2, dtypes=("f64", "f64", "f32", "i16", "i32"), all
         "N": draw(st.sampled_from([n for n in [1, 2, 2, 3, 4, 5, 6, 7, 8, 9, 10, 12] * 2 + [300, 2049, 2500, 5000] if n >= min_n])),
         "m": [draw(mult) for _ in range(F)],
         # spread per coefficient; 0 = constant coefficient (only where the variance is not used)
-        "s": [draw(st.sampled_from([1.0, 1.0, 2.0, 5.0, 20.0, 3.7] + ([0.0] if allow_const else []))) for _ in range(F)],
+        "s": [draw(st.sampled_from([1.0, 1.0, 2.0, 5.0, 20.0, 3.7] + ([0.0, 0.0, 0.0] if allow_const else []))) for _ in range(F)],
         "dtype": draw(st.sampled_from(list(dtypes))),
         "seed": draw(st.integers(0, 2 ** 32 - 1)),
     }
@@ -246,7 +249,7 @@ def apply_specs(draw, min_vectors=1, allow_vec=True):
         "other": other,
         "pos": draw(st.integers(0, 3)),
         "neg": draw(st.booleans()),
-        "dtype": draw(st.sampled_from(["f64", "f64", "f32", "i16", "i32"])),
+        "dtype": draw(st.sampled_from(["f64", "f64", "f32", "i16", "i32", "f64", "f32", "i16", "i32", "ld", "f16", "u16"])),
         "seed": draw(st.integers(0, 2 ** 32 - 1)),
         "in_place": draw(st.sampled_from([False, False, True])),
         "fortran": draw(st.sampled_from([False, False, True])),
@@ -263,7 +266,7 @@ def values_cases(draw):
         "hist": draw(histories(data["N"])),
         "apply": draw(apply_specs()),
         # "loaded statistics": the accumulated statistics are saved and the transform is applied by a new object built from the file
-        "via": draw(st.sampled_from([None, None, None, "stats.npy", "stats.npz", "stats.bin", "stats", "foreign.npy", "foreign_half.npy"])),
+        "via": draw(st.sampled_from([None, None, None, "stats.npy", "stats.npz", "stats.bin", "stats", "stats.bin", "foreign.npy", "foreign_half.npy"])),
     }
 
 
@@ -403,7 +406,7 @@ def check_values(case):
     labels = _labels(spec, tags, mean, norm_var, atag, in_place)
     labels.append("statistics written by another program" if via and via.startswith("foreign") else
                   "statistics loaded from ." + via.rsplit(".", 1)[-1] if via and "." in via else ("statistics loaded from a raw file" if via else "statistics accumulated"))
-    if any(float(v) == 0.0 for v in spec["s"]) and not spec["dtype"].startswith("i"):
+    if any(float(v) == 0.0 for v in spec["s"]) and not spec["dtype"][0] in "iu":
         labels.append("constant coefficient")
     return {"nontrivial": nontrivial, "labels": labels}
 
@@ -469,7 +472,7 @@ def check_own(case):
     # moments of the result over the other axes
     vecs = post_ref.tensor_vectors(out, axis)
     m2, v2 = post_ref.moments(vecs)
-    sc = np.array([max(2.0, float(v)) if spec["dtype"].startswith("i") else float(v) for v in spec["s"]], dtype=post_ref.LD)
+    sc = np.array([max(2.0, float(v)) if spec["dtype"][0] in "iu" else float(v) for v in spec["s"]], dtype=post_ref.LD)
     unit = np.ones_like(sc) if norm_var else sc
     worst = float(np.max(np.abs(m2) / unit))
     require(worst <= 1e-9, "result has per-coefficient mean {} (should be 0; relative to scale: {:.3g})",
